@@ -379,6 +379,53 @@ fn input_orders_named(run: &mut Run, quick: bool, names: [&'static str; 4]) -> u
     n
 }
 
+/// A run of more than 10^8 steps: the outcome is a function of the program and the limit alone - whatever
+/// time it takes.  The counting loop `0 DupBlock (Inc DupBlock)` adds one every third step; the law
+/// counter(limit + 3) = counter(limit) + 1 is read off the reference semantics on short runs and the long
+/// run must land on it exactly.
+fn long_run(run: &mut Run) -> u64 {
+    use crate::pushref::{ref_run_long, Final};
+    let body = PushProgram::Block(vec![PushProgram::Instruction(IntInstruction::Inc.into()), PushProgram::Instruction(push::instruction::ExecInstruction::dup_block().into())]);
+    let program = vec![PushProgram::Instruction(PushInstruction::push_int(0)), PushProgram::Instruction(push::instruction::ExecInstruction::dup_block().into()), body];
+    let counter_ref = |limit: usize| -> Option<i64> {
+        let mut r = RState::empty([16; 4]);
+        r.exec = program.iter().rev().cloned().collect();
+        match ref_run_long(&r, limit) {
+            Ok(Final::Done(s)) => s.int.last().copied(),
+            _ => None,
+        }
+    };
+    // the period law on the reference, limits 40..100
+    let base: Vec<Option<i64>> = (40..=100).map(counter_ref).collect();
+    if base.iter().any(|c| c.is_none()) || (0..58).any(|i| base[i + 3] != base[i].map(|c| c + 1)) {
+        run.machinery("long run: the reference semantics do not show the period-3 counting law on limits 40..100".to_string());
+        return 0;
+    }
+    let real = |limit: usize| -> Result<i64, String> {
+        let s = PushState::builder().with_max_stack_size(16).with_program(program.clone()).map_err(|e| format!("{e:?}"))?.with_instruction_step_limit(limit).build();
+        match mcx::guarded(|| s.run_to_completion()) {
+            Ok(Ok(end)) => observe_state(&end).int.last().copied().ok_or_else(|| "empty int stack".to_string()),
+            Ok(Err(_)) => Err("the run ended with an error".into()),
+            Err(p) => Err(format!("panicked: {p}")),
+        }
+    };
+    let limits: Vec<usize> = if run.quick() { vec![1 << 20, (1 << 20) + 1, (1 << 21) + 2, (1 << 27) + 5] } else { vec![1 << 20, (1 << 20) + 1, (1 << 21) + 2, (1 << 27) + 5, (1 << 30) + 7] };
+    let mut steps = 0u64;
+    for limit in limits {
+        steps += limit as u64;
+        let k = (limit - 40) / 3;
+        let want = base[(limit - 40) % 3].unwrap() + k as i64;
+        let started = std::time::Instant::now();
+        match real(limit) {
+            Ok(c) if c == want => {}
+            Ok(c) => run.violation("push/long-run".to_string(), format!("the counting loop under a step limit of {limit} ended with counter {c} after {:.1} s; the program and the limit determine {want}", started.elapsed().as_secs_f64()), json!({"check":"C16","scenario":"long-run"})),
+            Err(e) => run.violation("push/long-run".to_string(), format!("the counting loop under a step limit of {limit}: {e}"), json!({"check":"C16","scenario":"long-run"})),
+        }
+    }
+    run.bound("long_run_step_limits", json!(if run.quick() { "2^20, 2^20+1, 2^21+2, 2^27+5" } else { "2^20, 2^20+1, 2^21+2, 2^27+5, 2^30+7" }));
+    steps
+}
+
 /// child mode: print the digest of all observations
 pub fn child(tier: &str) {
     let o = run_scenarios(tier != "thorough");
@@ -400,6 +447,8 @@ pub fn run(run: &mut Run) {
     }
     let h = history_independence(run);
     let io = input_orders(run, quick);
+    let lr = long_run(run);
+    run.note("long_run_steps", json!(lr));
     // process level: two fresh processes (different hasher keys, addresses, start times)
     let exe = std::env::current_exe().expect("exe");
     let mut digests = vec![];
@@ -442,6 +491,9 @@ pub fn run(run: &mut Run) {
 pub fn replay(v: &Value) -> bool {
     let mut r = Run::new("C16", "quick");
     match v["scenario"].as_str() {
+        Some("long-run") => {
+            long_run(&mut r);
+        }
         Some("input-orders") => {
             input_orders(&mut r, false);
         }
